@@ -1,1 +1,4 @@
-pub fn hello() {}
+pub mod common;
+pub mod r1;
+pub mod gen;
+pub mod e1;
